@@ -69,3 +69,11 @@ package worker
 //@   calls newRemoteRunner#1: requires $0 == ctr.UUID && $1 == wkr
 //@   at assign .state#1: assert dom(wkr.starting)[ctr.UUID]
 //@   ensures dom(wkr.starting)[ctr.UUID] && wkr.state == StateRunning
+
+// waitUntilLoaded returns only when the initial instance list has been loaded
+// (CountWorkers - and through it the scheduler's stale-lock fix-up and sync -
+// rely on this: before that, instances with live processes are not known yet).
+//@ func Pool.Subscribe trusted
+//@   modifies all
+//@ func Pool.waitUntilLoaded property C14
+//@   ensures wp.loaded
